@@ -19,12 +19,18 @@ Unknown = z3.Function('unknown', NodeS, z3.BoolSort())
 RegP = z3.Function('registered', NodeS, z3.BoolSort())          # keyed by the hash token node
 
 
+EmptySeq = z3.Function('is_empty_sequence', NodeS, z3.BoolSort())    # `{}` is the only falsy Micheline expression
+
+
 class GNode:
-    """abstract child node: only the contract of _resolve may be applied to it"""
+    """abstract child node: only the contract of _resolve may be applied to it (its truth value: not the empty sequence)"""
     __pyvc_symbolic__ = True
 
     def __init__(self, term, label):
         self.term, self.label = term, label
+
+    def __pyvc_truth__(self, eng):
+        return eng.fork(z3.Not(EmptySeq(self.term)))
 
     def __repr__(self):
         return f'<{self.label}>'
@@ -66,6 +72,29 @@ class GRegistry:
 
     def __pyvc_getitem__(self, eng, key):
         return GNode(z3.Const(f'reg_{key.label}', NodeS), f'registry[{key.label}]')
+
+    def __pyvc_attr__(self, eng, name):
+        if name == 'get':
+            def get(e, a, k):
+                key = a[0]
+                default = a[1] if len(a) > 1 else k.get('default')
+                if not isinstance(key, GHashTok):
+                    raise Unsupported('registry key')
+                if e.fork(RegP(key.term)):
+                    return self.__pyvc_getitem__(e, key)
+                return default
+            return _F(get)
+        raise Unsupported(f'registry.{name}')
+
+
+class _F:
+    __pyvc_symbolic__ = True
+
+    def __init__(self, f):
+        self.f = f
+
+    def __pyvc_call__(self, eng, args, kwargs):
+        return self.f(eng, args, kwargs)
 
 
 def resolve_contract(eng, closure, args, kwargs):
